@@ -158,8 +158,8 @@ template <int B> struct Blk {
                     // hierarchies have the same transfer operators (the hypothesis of C02b.apply_scale).  At block value types math::norm is the
                     // Frobenius norm and passes through the stand-in square root of Q (floor(sqrt(q 4^32))/2^32, NOT homogeneous:
                     // rsqrt(16 q) != 4 rsqrt(q)), which binary64 does not share for powers of two; therefore SPAI-0 (M_i = num / sum norm(a_ij)^2)
-                    // and Chebyshev (Gershgorin bound from block norms) are excluded here (the scalar harness h_cycle covers them) and a strength-of-connection decision that flips is a skipped case, not a failure.
-                    if (r.ok && rp.rk != 2 && rp.rk != 4) {
+                    // and Chebyshev (Gershgorin bound from block norms) are excluded here (the scalar harness h_cycle covers them); run for ILU(0), ILUP, ILU(k) (rk 3, 5, 6) and a strength-of-connection decision that flips is a skipped case, not a failure.
+                    if (r.ok && (rp.rk == 3 || rp.rk == 5 || rp.rk == 6)) {
                         auto A4 = h.A; for (auto &v : A4.val) v = v * Q(4);
                         const char *bad = nullptr; bool same = true;
                         try {
